@@ -399,6 +399,8 @@ def gen_trace(rng):
     recipe, fmts = rng.choice(OBJECTS)
     recipe = copy.deepcopy(recipe)
     mod = rng.choice(MODS)
+    if recipe["file"].endswith(".cube") and rng.random() < 0.5:
+        mod = {"op": "tiny_cube_values"}  # (the one volumetric source: its special values would otherwise be drawn too rarely)
     wfn_like = recipe["file"].endswith((".fchk", ".molden.input", ".mkl", ".wfn", ".wfx", ".molden"))
     if wfn_like and rng.random() < 0.12:
         recipe["mods"] = copy.deepcopy(rng.choice(MOD_PAIRS))
